@@ -500,15 +500,13 @@ impl ContinuityStore {
             ) {
                 Ok(Some(tail)) => {
                     if !tail.events.is_empty() {
-                        // Prefer the full continuity sidecar's head seq so `from_seq` matches the
-                        // truth stream even when the mr sidecar omits non-message events.
-                        let head_seq = self
-                            .stream_cache
-                            .try_read_last_seq(continuity_id)
-                            .ok()
-                            .flatten()
-                            .or_else(|| tail.events.last().map(|event| event.seq))
-                            .unwrap_or_default();
+                        // The head seq comes from the full continuity sidecar so `from_seq` matches
+                        // the truth stream (the mr sidecar omits non-message events). Without it
+                        // this fast path has no head: fall through to the window / replay paths.
+                        let Ok(Some(head_seq)) = self.stream_cache.try_read_last_seq(continuity_id)
+                        else {
+                            break;
+                        };
 
                         let mut message_events: Vec<(u64, String)> = Vec::new();
                         for event in &tail.events {
